@@ -135,7 +135,7 @@ pub fn remote_fault() -> Option<String> {
     None
 }
 // ---- C04: a successful run delivers exactly its plan (bounded: one tree of awkward names, five flag sets, three directions) ----
-const NAMES: [&str; 15] = ["nl\ndir/inside.txt", "plain.txt", "with space.txt", "quote'single.txt", "dq\"double.txt", "back\\slash.txt", "dollar$HOME.txt", "star*glob?.txt",
+const NAMES: [&str; 17] = ["nl\ndir/inside.txt", "report\\table.csv", "esc\\new\\0end", "plain.txt", "with space.txt", "quote'single.txt", "dq\"double.txt", "back\\slash.txt", "dollar$HOME.txt", "star*glob?.txt",
     "-leading-dash", "uni-\u{f8}-\u{6587}.txt", "new\nline.txt", "sub dir/nested file.txt", "sub dir/deep/x.log", ".hidden", "semi;colon&amp.txt"];
 pub fn flag_sets() -> Vec<Vec<&'static str>> {
     vec![vec![], vec!["--delete"], vec!["--delete", "--exclude", "*.log"], vec!["--exclude", "sub dir"], vec!["--delete", "-j", "4"]]
@@ -178,10 +178,24 @@ pub fn delivers_plan(dir: &str, fi: usize) -> Option<String> {
     match dir { "pull" => { args.push(format!("fakehost:{ss}")); args.push(ds); } "push" => { args.push(ss); args.push(format!("fakehost:{ds}")); } _ => { args.push(ss); args.push(ds); } }
     let out = Command::new(b).args(&args).current_dir(&cwd).env("PATH", env.path_env()).env("RUST_BACKTRACE", "0").output().ok()?;
     let tag = format!("[{dir}, flags {flags:?}]");
-    let shown = |p: &str| p.replace('\n', "\\n");
-    if out.status.code() != Some(0) { return Some(format!("{tag} a run over a tree of awkward names fails (exit {:?}): {} (C04)", out.status.code(), String::from_utf8_lossy(&out.stderr).lines().filter(|l| l.contains("FAIL") || l.contains("rror")).take(2).collect::<Vec<_>>().join(" | "))); }
+    let shown = |p: &str| p.replace('\\', "/BACKSLASH/").replace('\n', "<LF>").replace('\t', "<TAB>").replace('\0', "<NUL>");
     let (s1, d1) = (stamp(&sr), stamp(&dr));
     if s1 != s0 { return Some(format!("{tag} the source tree was modified (C04)")); }
+    if out.status.code() != Some(0) {
+        // the property allows a run to fail - then an error must have been reported, and still nothing outside the plan
+        // (other than staging names) may have been touched: every destination path is as before or as planned
+        if out.stderr.is_empty() { return Some(format!("{tag} the run exits {:?} without reporting an error (C04)", out.status.code())); }
+        for p in d0.keys().chain(d1.keys()) {
+            if p.ends_with(".copia-tmp") { continue; }
+            let (b, a) = (d0.get(p), d1.get(p));
+            if a == b || a == want.get(p) || (a.is_none() && !want.contains_key(p)) { continue; }
+            if let (Some(a), Some(w)) = (a, want.get(p)) { if a.0 == w.0 { continue; } }       // bytes delivered, mtime step cut short by the failure
+            return Some(format!("{tag} the run failed (exit {:?}) AND `{}` at the destination is neither as before nor as planned: something outside the plan was touched (C04)", out.status.code(), shown(p)));
+        }
+        let by: Vec<String> = ["line", "stale.txt"].iter().filter(|f| std::fs::read(cwd.join(f)).ok().as_deref() != Some(b"bystander")).map(|f| f.to_string()).collect();
+        if !by.is_empty() { return Some(format!("{tag} the run failed AND files outside the destination tree were touched: {by:?} (C04)")); }
+        return None;
+    }
     if let Some(p) = d1.keys().find(|p| p.ends_with(".copia-tmp")) { return Some(format!("{tag} a staging file remains after a successful run: `{}` (C04)", shown(p))); }
     for p in want.keys().chain(d1.keys()) {
         match (want.get(p), d1.get(p)) {
